@@ -110,6 +110,18 @@ def gen_cases(rng, tier):
             evs = pre + post
             horizon = t0 + TO + 40000
             cases.append(["late%d" % n, "c06", "ni", "0", str(code), str(t0), ",".join("%d:%s" % e for e in evs), str(horizon), "", ""]); n += 1
+    # the same for an INVITE that is answered late (timer A of the client: 0.5, 1.5, 3.5, 7.5, ...): a provisional response given meanwhile
+    # goes out once per call however many copies of the INVITE are waiting, and the final answers each waiting copy once
+    A_SCHED = [500, 1500, 3500, 7500, 15500]
+    for t0 in (1000, 2600, 9000, 20000):
+        for provs in ((), (t0 - 400,), (200, t0 - 400), (t0 - 900, t0 - 400)):
+            provs = tuple(p for p in provs if p > 0)
+            for code in (486, 603):
+                for ack in (None, t0 + 300):
+                    pre = [(t, "R") for t in A_SCHED if t < t0]
+                    post = [(t0 + 120, "R")] + ([(ack, "A")] if ack else [])
+                    cases.append(["lateinv%d" % n, "c06", "inv", "0", str(code), str(t0), ",".join("%d:%s" % e for e in pre + post), str(t0 + TO + 40000),
+                                  ",".join(str(p) for p in provs), ""]); n += 1
     nrand = 120 if tier == "quick" else 3000
     for i in range(nrand):
         kind = rng.choice(["ni", "inv"])
@@ -206,6 +218,7 @@ def oracle(case, impl):
         stop = ack if ack is not None else t0 + TO
         exp = [t0]
         if not rel:
+            exp += [t0 for (t, k) in inj if k == "R" and t < t0]       # copies of the INVITE that waited for the answer: one each
             exp += [t0 + g for g in G_SENDS[1:] if t0 + g < stop]
             exp += [t for (t, k) in inj if k == "R" and t0 < t < stop]
         exp.sort()
